@@ -122,6 +122,7 @@ func bigRingShapes(cfg2 *geometry.IndexOptions) []*shp {
 		d.G3 = movedBack(d.E)
 		d.G4 = geomOf(d.E, tinyXf, idxNone)
 		d.G5 = geomOf(d.E, farFineXf, idxNone)
+		d.G6 = doubled(d.E)
 		d.tag = br.name + "-dense"
 		out = append(out, d)
 		h := mkShp(&exact.Shape{Kind: exact.KPoly, Ext: frame, Holes: [][]exact.P{br.ring}}, cfg2)
